@@ -551,6 +551,23 @@ def _body_schema(draw, g: Gate, names: list[str]) -> dict:
     return {"type": "object", "properties": props, "required": [next(iter(props))]}
 
 
+def _refers_to_nested_array_alias(sch: dict, schemas: dict) -> bool:
+    """$ref (directly or as array items) to a named schema that is an array whose items are arrays again."""
+    def deref(n):
+        for _ in range(6):
+            if isinstance(n, dict) and "$ref" in n:
+                n = schemas.get(n["$ref"].rsplit("/", 1)[1], {})
+        return n if isinstance(n, dict) else {}
+
+    cands = [sch] + ([sch.get("items")] if isinstance(sch, dict) and sch.get("type") == "array" else [])
+    for c in cands:
+        if isinstance(c, dict) and "$ref" in c:
+            t = deref(c)
+            if t.get("type") == "array" and deref(t.get("items", {})).get("type") == "array":
+                return True
+    return False
+
+
 def _gate_colliding_promotable(g: Gate, props: dict) -> dict:
     """Inline objects of bodies / responses: two keys deriving to one identifier where one needs a synthesised type (inline enum) are
     the trigger of C03-F03; with that finding open the later key is dropped (counted)."""
@@ -599,6 +616,13 @@ def _response(draw, g: Gate, names: list[str], code: str, success: bool, schemas
             sch = _ref(draw(st.sampled_from(exc_like)))  # an ERROR payload schema named like one of the core's exception classes
         elif exc_like and success and g.flag(draw, "exception_like_schema_name", 1, 6):
             sch = _ref(draw(st.sampled_from(exc_like)))  # the same schema as a SUCCESS body: the endpoint module imports the model (C06-F01)
+        if success and _refers_to_nested_array_alias(sch, schemas_ctx or {}):
+            # a response that refers to a NAMED array-of-array alias is returned via cast() as raw lists/dicts: finding C05-F08
+            if "resp_nested_array_alias" in g.exclude:
+                g.excluded["resp_nested_array_alias"] += 1
+                sch = {"type": "array", "items": {"type": "string"}}
+            else:
+                g.used["resp_nested_array_alias"] += 1
         if success and _formatted_primitive(sch, schemas_ctx or {}):
             # a formatted primitive (uuid/date/...) as the whole response is cast, not converted: finding C05-F04
             if not g.flag(draw, "resp_formatted_primitive", 1, 1):
